@@ -3,7 +3,7 @@ import itertools
 import gen
 import devices
 import bringup
-from . import funcases
+from . import funcases, servercases
 
 LEVEL = "proof"
 RULE = ("product of device states: mode {bootloader, signer, ui-heartbeat, unknown(0xFF), other(5)} x onboarded "
@@ -124,6 +124,71 @@ def run(ctx):
     res["compared"] = cmp_n
     res["mismatches"] += mism
     res["corr_errors"] += errs
+    # the same rules hold for the bring-up that is re-run to repair a lost connection: the device is
+    # power-cycled under a serving manager and comes back in the bootloader in every one of these states
+    r2 = servercases.run(ctx, rebringup_cases(rng), rebringup_oracle)
+    for k in ("evaluations", "compared", "distinct"):
+        res[k] += r2[k]
+    res["mismatches"] += r2["mismatches"]
+    res["violations"] += r2["violations"]
+    res["corr_errors"] += r2["corr_errors"]
     res["distribution"] = dist
     res["exhaustive"] = ctx["tier"] == "thorough"
     return res
+
+
+def rebringup_cases(rng):
+    cases = []
+    for kind, retries, needs_change, pin_ok, post, uiv, echo_bad, onb in itertools.product(
+            ["ledger", "sgx"], [3, 1], [False, True], [True, False], [3, 2], [(5, 4, 1), (5, 4, 2)],
+            [False, True], [True, False]):
+        d = gen.random_device(rng)
+        d.sgx = kind == "sgx"
+        d.pin = b"1234567a"
+        d.retries = retries
+        d.ui_version = uiv
+        d.echo_bad = echo_bad
+        d.onboarded = onb
+        d.after_exit = [post, post, post]
+        mgr_pin = b"1234567a" if pin_ok else b"abcdefg1"
+        st = dict(kind=kind, retries=retries, needs_change=needs_change, pin_ok=pin_ok, post=post, uiv=uiv,
+                  echo_bad=echo_bad, onboarded=onb)
+        req = {"command": "getPubKey", "version": 5, "keyId": gen.PATHS[0]}
+        cases.append({"mode": "v5", "kind": kind, "lines": [gen.line(req)] * 3, "connects": [True, True, True],
+                      "pin": (mgr_pin, needs_change), "rand": [b"Zz9Zz9Zz", b"Yy8Yy8Yy", b"Xx7Xx7Xx"],
+                      "fs": [True, True, True], "device": devices.PowerCycled(d), "meta": st})
+    return cases
+
+
+def rebringup_oracle(case, obs):
+    st = case["meta"]
+    unlock_cmd = 0xA3 if st["kind"] == "sgx" else 0xFE
+    # split the trace into bring-ups (each starts at a successful connect)
+    segs, cur = [], None
+    for e in obs["trace"]:
+        if e[0] == "C":
+            cur = []
+            segs.append(cur)
+        elif cur is not None:
+            cur.append(e)
+    if not segs:
+        return {"key": "C09:rebringup:none", "what": "scenario did not reconnect (harness)"}
+    first = segs[0]
+    unlocks = [e for e in first if e[0] == "A" and e[1][1] == unlock_cmd]
+    safe = st["onboarded"] and supports(st["uiv"]) and not st["echo_bad"] and st["retries"] >= 2
+    if any(len([e for e in sg if e[0] == "A" and e[1][1] == unlock_cmd]) > 1 for sg in segs):
+        return {"key": "C09:rebringup:unlock-twice", "what": "unlock sent twice within one bring-up"}
+    if unlocks and not safe:
+        return {"key": "C09:rebringup:unlock-unsafe", "what": "repair bring-up sent the PIN to a device that "
+                "is not (onboarded, supported UI, echo ok, retries >= 2)", "state": st}
+    may_serve = safe and st["pin_ok"] and not st["needs_change"] and st["post"] == 3
+    served = [e for e in first if e[0] == "A" and e[1][1] == 0x04]
+    if served and not may_serve:
+        return {"key": "C09:rebringup:serve-unsafe", "what": "a client request was served after a repair "
+                "bring-up that had to stop (state %r)" % st}
+    changed = [e for e in first if e[0] == "A" and e[1][1] == (0xA5 if st["kind"] == "sgx" else 0x08)]
+    later_unlock = [e for sg in segs[1:] for e in sg if e[0] == "A" and e[1][1] == unlock_cmd]
+    if changed and (later_unlock or len(segs) > 1):
+        return {"key": "C09:rebringup:carried-on-after-change", "what": "the manager went through another "
+                "bring-up after one that attempted a PIN change"}
+    return None
